@@ -89,7 +89,7 @@ CLAIMED = {
     ),
     "C02": (
         "Coq proof (parse/print identities for every accepted text and every well-formed frame, through a verified regex matcher and a column-peeling lemma decided on the regenerated COMMAND_REGEX) + correspondence on Command/Packet/_from_attrs and on the real packet logger + replay",
-        "10 theorems in coq/props/C02.v about coq/model/M_Frame.v: for a line frame[ < hint][ * evofw3-err][ # comment] (Packet._partition) whatever follows the first '#' is comment and nothing else -- it may contain '*', '<' or further '#' without changing the frame or becoming an error message (tied by a partition correspondence on annotated lines); print(parse s) = s for EVERY string the frame constructor accepts, "
+        "14 theorems in coq/props/C02.v about coq/model/M_Frame.v: the CLI short form (Command.from_cli: tokenisation, sequence-number detection by DEVICE_ID_REGEX.ANY, completion of one / two / three address tokens, payload cut) -- three address tokens are the three address fields of the frame built, fewer are completed as documented (C02_cli_triple_kept, C02_cli_short_forms, C02_cli_toks_triple_kept[_no_seqn]; tied by a from_cli correspondence on generated CLI strings of every shape); for a line frame[ < hint][ * evofw3-err][ # comment] (Packet._partition) whatever follows the first '#' is comment and nothing else -- it may contain '*', '<' or further '#' without changing the frame or becoming an error message (tied by a partition correspondence on annotated lines); print(parse s) = s for EVERY string the frame constructor accepts, "
         "parse(print f) = f for EVERY structurally valid frame, length field = byte count, _from_attrs preserves all fields; the fixed "
         "slice offsets are justified by a computed obligation on the regenerated COMMAND_REGEX (columns 2/3/9/9/9/4/3 separated by "
         "single spaces). Tie: Command(frame), Packet.from_port, Command._from_attrs on generated frames/attributes vs the model "
